@@ -99,6 +99,13 @@ def run_c01_schedules(vh, tier, sd):
     rnd.shuffle(loose)
     sel = strict[:450] + loose[:250] if tier == "quick" else strict + loose
     cases = [{"steps": s, "combo": (i + sd) % 9} for i, s in enumerate(sel)]
+
+    # transactions that span the tables of both monitors, with both monitors on monitor_cond_since behind the proxy's
+    # since mode: the two notifications of such a transaction carry one transaction id
+    def wide(s):
+        return any(st[0] == "TBegin" and len({"T2" if c[0] == "r3" else "T1" for c in st[1]}) > 1 for st in s)
+    ws = [s for s in strict if wide(s)]
+    cases += [{"steps": s, "combo": 8} for s in (ws[:150] if tier == "quick" else ws[:1500])]
     res = run_shards(vh, cases, all_methods=False)
     out = {"cases": [c for r in res for c in r["cases"] if c["mismatch"].get("prop") == "C01"],
            "states": cov["mc_states"] + sum(r["states"] for r in res), "transitions": cov["mc_transitions"] + sum(r["transitions"] for r in res),
